@@ -176,7 +176,8 @@ SRC_TIE = {
                      '_get_tsp']},
     'C15': {'Card': ['calculate_check_digit', 'validate_check_digit', 'add_check_digit', 'mask']},
     'C16': {'Card': ['calculate_check_digit', 'validate_check_digit', 'add_check_digit', 'mask'],
-            'Misc': ['_get_tsp', '_pan_prefix']},
+            'Misc': ['_get_tsp', '_pan_prefix'],
+            'Value': ['_iso8583_to_field_value', 'mask', '_pan_prefix', '_string_to_pytype']},
     'C18': {'Param': ['IpmParamReader._get_param_field'],
             'ParamRow': ['IpmParamReader_next_row', 'IpmParamReader._get_param_field'],
             'ParamIndex': ['IpmParamReader_index_step', 'IpmParamReader_next_row', 'IpmParamReader._get_param_field']},
